@@ -79,22 +79,28 @@ def _install_array_division():
 _install_array_division()
 
 
-def herm(inp, name, cplx=True):
-    """2x2 Hermitian matrix by construction (real symmetric if not cplx)"""
-    a = inp.real(name + "_a")
-    e = inp.real(name + "_e")
-    b = inp.real(name + "_b")
-    c = inp.real(name + "_c") if cplx else None
-    if inp.mode == "real":
-        m = np.zeros((2, 2), dtype=complex)
-        m[0, 0], m[1, 1] = a, e
-        m[0, 1] = complex(b, c if cplx else 0.0)
-        m[1, 0] = complex(b, -c if cplx else 0.0)
-        return m
-    m = np.empty((2, 2), dtype=object)
-    m[0, 0], m[1, 1] = a, e
-    m[0, 1] = S(b.re, c.re) if cplx else b
-    m[1, 0] = S(b.re, -c.re) if cplx else b
+def herm(inp, name, cplx=True, genuinely_complex=False, d=2):
+    """d x d Hermitian matrix by construction (real symmetric if not cplx).
+    genuinely_complex: imaginary part of the first off-diagonal != 0 (used for H so that H
+    and H^T are distinguishable arguments of the expm stub; real H has its own cases)"""
+    real_mode = inp.mode == "real"
+    m = np.zeros((d, d), dtype=complex) if real_mode else np.empty((d, d), dtype=object)
+    for i in range(d):
+        m[i, i] = inp.real("%s_d%d" % (name, i))
+    first = True
+    for i in range(d):
+        for j in range(i + 1, d):
+            tag = "" if d == 2 else "%d%d" % (i, j)
+            b = inp.real("%s_b%s" % (name, tag))
+            if cplx:
+                cc = inp.real("%s_c%s" % (name, tag), nonzero=(genuinely_complex and first))
+            first = False
+            if real_mode:
+                m[i, j] = complex(b, cc if cplx else 0.0)
+                m[j, i] = complex(b, -cc if cplx else 0.0)
+            else:
+                m[i, j] = S(b.re, cc.re) if cplx else b
+                m[j, i] = S(b.re, -cc.re) if cplx else b
     return m
 
 
@@ -105,19 +111,53 @@ def mpow(M, k, inp):
     return out
 
 
-def make_bath(alpha=0.0):
+def make_bath(alpha=0.0, d=2):
     """concrete real Bath (built outside the symbolic environment: Bath diagonalises its
-    coupling operator with LAPACK)"""
+    coupling operator with LAPACK); coupling S_z of spin (d-1)/2"""
     corr = oqupy.PowerLawSD(alpha=alpha, zeta=1, cutoff=1.0, cutoff_type="exponential", temperature=TEMPERATURE)
-    return oqupy.Bath(0.5 * oqupy.operators.sigma("z"), corr)
+    return oqupy.Bath(np.diag([(d - 1) / 2.0 - k for k in range(d)]), corr)
+
+
+def _valid_eq(a, b):
+    """entrywise equality that holds for ALL values of the symbols (python bool)"""
+    a, b = np.asarray(a), np.asarray(b)
+    if a.shape != b.shape:
+        return False
+    if a.dtype != object and b.dtype != object:
+        return bool(np.allclose(a, b, rtol=1e-12, atol=1e-12))
+    ds = sym.neq_terms(a, b)
+    if not ds:
+        return True
+    s = z3.Solver()
+    s.set("timeout", 5000)
+    s.add(z3.Or(*ds))
+    return s.check() == z3.unsat
+
+
+def _eq_cond(inp, a, b):
+    """entrywise equality as an obligation condition (SB in symbolic mode, bool otherwise)"""
+    a, b = np.asarray(a), np.asarray(b)
+    if inp.mode == "real":
+        return bool(np.allclose(a, b, rtol=1e-10, atol=1e-10))
+    ds = sym.neq_terms(a, b)
+    from vf.sym import SB
+    return SB(z3.Not(z3.Or(*ds))) if ds else True
 
 
 def _gibbs(inp, n_steps, H, G, bath):
-    """real GibbsTempo on a real System / Bath / PowerLawSD; only expm is replaced"""
+    """real GibbsTempo on a real System / Bath / PowerLawSD; only expm is replaced.
+    Stub F: F(A0) = G for A0 = -H/(2 T n), and F(A0^T) = G^T (expm commutes with
+    transposition), so that the oracle (F(A0).F(A0))^n does not depend on which of the two
+    the code asks for; any other argument is reported by the 'expm argument' obligation."""
     calls = []
+    A0 = _scale(H, -1.0 / (2.0 * TEMPERATURE * n_steps))
 
     def expm(arg):
         calls.append(arg)
+        if _valid_eq(arg, A0):
+            return G
+        if _valid_eq(arg, A0.T):
+            return G.T
         return G
     with env.patched({"oqupy.system.expm": expm}):
         system = oqupy.System(H)
@@ -134,16 +174,16 @@ class Orient(Case):
     env = {"extra": SYM_EXTRA}
     timeout_s = 300
 
-    def __init__(self, n_steps, cplx=True):
-        self.n, self.cplx = n_steps, cplx
-        self.id = "H1/%s_n%d" % ("orient" if cplx else "real", n_steps)
-        self.bounds = {"d": 2, "n_steps": n_steps, "coupling": 0, "hamiltonian": "complex Hermitian" if cplx else "real symmetric"}
-        self.bath = make_bath()
+    def __init__(self, n_steps, cplx=True, d=2):
+        self.n, self.cplx, self.d = n_steps, cplx, d
+        self.id = "H1/%s_n%d%s" % ("orient" if cplx else "real", n_steps, "" if d == 2 else "_d%d" % d)
+        self.bounds = {"d": d, "n_steps": n_steps, "coupling": 0, "hamiltonian": "complex Hermitian" if cplx else "real symmetric"}
+        self.bath = make_bath(d=d)
 
     def run(self, inp):
         n = self.n
-        H = herm(inp, "H", self.cplx)
-        G = herm(inp, "G", self.cplx)
+        H = herm(inp, "H", self.cplx, genuinely_complex=True, d=self.d)
+        G = herm(inp, "G", self.cplx, d=self.d)
         g, calls = _gibbs(inp, n, H, G, self.bath)
         dyn = g.compute(progress_type="silent")
         E = mpow(G @ G, n, inp)                   # F(-H/(2Tn))^(2n)  (= exp(-H/T) by the group law)
@@ -167,13 +207,15 @@ class Wiring(Case):
 
     def run(self, inp):
         n = self.n
-        H = herm(inp, "H")
+        H = herm(inp, "H", genuinely_complex=True)
         G = herm(inp, "G")
         g, calls = _gibbs(inp, n, H, G, self.bath)
         want = _scale(H, -1.0 / (2.0 * TEMPERATURE * n))
         obs = [Ob.holds("expm called for the two half steps", len(calls) == 2)]
         for i, a in enumerate(calls[:2]):
-            obs.append(Ob.eq("expm argument %d == -H/(2 T n) (not transposed)" % i, a, want))
+            c1, c2 = _eq_cond(inp, a, want), _eq_cond(inp, a, want.T)
+            obs.append(Ob.holds("expm argument %d is -H/(2 T n) (or its transpose, given back transposed)" % i,
+                                (c1 | c2) if inp.mode == "sym" and not isinstance(c1, bool) else (c1 or c2)))
         dyn = g.compute(progress_type="silent")
         E = mpow(G @ G, n, inp)
         last = dyn.states[-1]
@@ -376,7 +418,8 @@ class ZRotation(Case):
     def run(self, inp):
         import oqupy.bath_correlations as bc
         n = self.n
-        H = herm(inp, "H", False)
+        H = herm(inp, "H", genuinely_complex=True)
+        K = herm(inp, "K", genuinely_complex=True)      # stands for R H R^+ (only G, G' enter the identity)
         G = herm(inp, "G")
         t = inp.real("t")
         one = inp.one()
@@ -396,7 +439,7 @@ class ZRotation(Case):
         bc.CustomSD.eta_function = eta
         try:
             g1, _ = _gibbs(inp, n, H, G, self.bath)
-            g2, _ = _gibbs(inp, n, H, Gp, self.bath)
+            g2, _ = _gibbs(inp, n, K, Gp, self.bath)
             s = g1.compute(progress_type="silent").states[-1]
             sp = g2.compute(progress_type="silent").states[-1]
         finally:
@@ -452,7 +495,8 @@ def _dagger(m):
 
 def cases(tier):
     cs = [Orient(2), Orient(3), Orient(2, cplx=False), Orient(3, cplx=False), Wiring(2), Wiring(3), Repeat(3),
-          Normalised("generic"), Normalised("hermitian"), Coefficients(3), HermitianCoupled(2), HermitianCoupled(3), ZRotation(2), ZRotation(3)]
+          Orient(2, d=3), Orient(2, cplx=False, d=3), Normalised("generic"), Normalised("hermitian"), Coefficients(3), HermitianCoupled(2), HermitianCoupled(3), ZRotation(2), ZRotation(3)]
     if tier == "thorough":
-        cs += [Orient(4), Orient(5), Orient(4, cplx=False), Wiring(4), Repeat(4), Repeat(2), HermitianCoupled(4)]
+        cs += [Orient(4), Orient(5), Orient(4, cplx=False), Wiring(4), Repeat(4), Repeat(2), HermitianCoupled(4), ZRotation(4),
+               Orient(3, d=3), Orient(3, cplx=False, d=3), Orient(4, cplx=False, d=3)]
     return cs
